@@ -1001,7 +1001,10 @@ class mru_cache(object):
                         cache.clear() 
                         queue.clear()
                     else: # purge most recently used cache entry
-                        k = queue_pop() if queue else next(iter(cache)) # bulk-loaded entries have no usage record
+                        while queue: # skip records of entries no longer cached
+                            k = queue_pop()
+                            if k in cache: break
+                        else: k = next(iter(cache)) # (bulk-loaded entries have no usage record)
                         if cache.archived(): cache.dump(k)
                         try: del cache[k]
                         except KeyError: pass #FIXME: possible none purged
